@@ -72,6 +72,9 @@ def gen_ops(rnd, tier):
                 ops.append(("sample", p, ow, st, k, rnd.randrange(3)))
         elif x < 0.7:
             ops.append(("openw", p, ow))
+        elif x < 0.76:
+            # the user (not the library) removes one half of the NPY pair: the other half is still an existing samples file
+            ops.append((rnd.choice(["user_removes_sidecar", "user_removes_array"]), 2))
         else:
             ops.append((rnd.choice(["copy", "deepcopy", "pickle", "load_results", "deepcopy"]), rnd.randrange(3)))
     return ops
@@ -153,6 +156,12 @@ def run_impl(ops, wd):
                     code = 1
                 except Exception:
                     code = 2
+            elif op[0].startswith("user_removes"):
+                victim = os.path.join(wd, PATHS[2] + (".pkl" if op[0] == "user_removes_sidecar" else ""))
+                other = os.path.join(wd, PATHS[2] + ("" if op[0] == "user_removes_sidecar" else ".pkl"))
+                if os.path.exists(victim) and os.path.exists(other):
+                    os.remove(victim)
+                before = [ident(wd, p) for p in range(3)]          # not an operation of the library: nothing to observe
             else:
                 s = samplers[op[1]]
                 if s is not None:
@@ -214,6 +223,8 @@ def coq_case(ops, obs):
             return f"Sample {op[1]} {str(op[2]).lower()} {st}"
         if op[0] == "openw":
             return f"OpenW {op[1]} {str(op[2]).lower()}"
+        if op[0].startswith("user_removes"):
+            return "CopyObj"            # the path still holds (half of) a samples file: no change of the model state, nothing observed
         return {"copy": "CopyObj", "deepcopy": "DeepCopyObj", "pickle": "PickleObj", "load_results": "LoadResults"}[op[0]]
     o = "[" + "; ".join("(%d, [%s])" % (code, "; ".join(str(b).lower() for b in ch)) for code, ch, _, _ in obs) + "]"
     return "{| f_ops := [%s]; f_obs := %s |}" % ("; ".join(enc(x) for x in ops), o)
@@ -235,6 +246,12 @@ def run(tier, seed):
                 k = "hmc" if st.startswith("hmc_") else rnd.choice(["hmc", "rwmh"])
                 ops = [("sample", i % 3, False, "valid", k, 0), ("sample", i % 3, False, st, k, 0),
                        ("deepcopy", 0), ("sample", (i + 1) % 3, False, st, k, 1)] + ops[:3]
+            elif i < len(AFTER) + len(BEFORE) + 4:   # half an NPY pair is still an existing samples file: both halves, both writers
+                j = i - len(AFTER) - len(BEFORE)
+                k = rnd.choice(["hmc", "rwmh"])
+                rm = ("user_removes_sidecar", 2) if j % 2 == 0 else ("user_removes_array", 2)
+                wr = ("sample", 2, False, "valid", k, 1) if j < 2 else ("openw", 2, False)
+                ops = [("sample", 2, False, "valid", k, 0), rm, wr, ("sample", 2, False, "valid", k, 0)] + ops[:3]
             obs, leaks, samplers, kinds = run_impl(ops, wd)
             for key, what in spec_oracle(ops, obs, leaks, wd, samplers, kinds):
                 violations.append(Violation(key, what, {"ops": ops}))
@@ -270,7 +287,7 @@ def run(tier, seed):
         "evaluations": dist["ops"], "distinct_nontrivial": len(seen),
         "rule": "seeded operation sequences on real samplers in a temp dir over two HDF5 paths and one NPY path (+ .pkl sidecar): sample() valid / "
                 f"failing at {len(BEFORE)} pre-open and {len(AFTER)} post-open validation stages (each stage forced once on an existing path), "
-                "Samples(mode='w'), copy, deepcopy, pickle, load_results; non-trivial = sample() on a path that already exists",
+                "Samples(mode='w'), copy, deepcopy, pickle, load_results, and the user removing one half of the NPY pair (array or sidecar); non-trivial = sample() on a path that already exists",
         "samples": samples, "violations": violations,
         "traces_validated_against_impl": len(coq) - len(failing),
         "coverage": {"distribution": dist, "validation_stages_exercised": sorted(stage_seen), "correspondence_failures": len(failing)},
